@@ -321,10 +321,11 @@ class Image(Traversable):
         tokens = [name, count_str]
         match = self._STEREO_FILENAME.match(name)
         if match:
+            # keep the original delimiter: "A -L" and "A L" must not both 
+            # become "A (2) L"
             tokens = [
                 match.group(1),
-                count_str,
-                match.group(3)
+                count_str + match.group(2) + match.group(3)
             ]
         new_name = delim.join(tokens)
         return new_name
